@@ -5,6 +5,7 @@ go 1.21.6
 toolchain go1.23.5
 
 require (
+	github.com/go-spatial/geom v0.0.0-20220918193402-3cd2f5a9a082
 	github.com/pdok/texel v0.0.0
 	verif/hcommon v0.0.0
 )
@@ -15,7 +16,6 @@ require (
 	github.com/go-playground/locales v0.14.1 // indirect
 	github.com/go-playground/universal-translator v0.18.1 // indirect
 	github.com/go-playground/validator/v10 v10.16.0 // indirect
-	github.com/go-spatial/geom v0.0.0-20220918193402-3cd2f5a9a082 // indirect
 	github.com/josharian/intern v1.0.0 // indirect
 	github.com/leodido/go-urn v1.2.4 // indirect
 	github.com/mailru/easyjson v0.7.7 // indirect
